@@ -1124,6 +1124,14 @@ func buildAug(s AugStruct) (augV, inlV map[string]string, introduced []string, o
 		case "sibling":
 			augV = map[string]string{"a": hdrInc("s", "s2") + " }", "s": subHdr + " include s2;" + aug + " }", "s2": sub2 + withNothing + " }"}
 			inlV = map[string]string{"a": hdrInc("s", "s2") + " }", "s": subHdr + " include s2; }", "s2": sub2 + withBody + " }"}
+		case "other-module":
+			// the submodule augments a node of ANOTHER module: the new nodes belong to module a all the same
+			toB := func(t string) string { return strings.ReplaceAll(t, "a:", "b:") }
+			path2, _ := target("")
+			augB := fmt.Sprintf(" augment %s {%s%s }", toB(path2), deco, render(body))
+			hdrB := "module b { namespace \"urn:b\"; prefix b; feature feat; feature off;"
+			augV = map[string]string{"a": hdrInc("s") + " }", "s": subHdr + " import b { prefix b; }" + augB + " }", "b": hdrB + toB(withNothing) + " }"}
+			inlV = map[string]string{"a": hdrInc("s") + " }", "s": subHdr + " import b { prefix b; } }", "b": hdrB + toB(withBody) + " }"}
 		}
 		return augV, inlV, introduced, true
 	}
@@ -1164,7 +1172,7 @@ func checkAug(s AugStruct) (vs []engine.Violation, outcome string) {
 	case ra.Verdict() == "panic" || ra.Verdict() == "nonterminating":
 		mk("augment-variant-"+ra.Verdict()+":"+cls, fmt.Sprint(ra.Panic))
 		return vs, "panic"
-	case s.Cross && s.mandatory():
+	case (s.Cross || s.Sub == "other-module") && s.mandatory():
 		if ra.OK() {
 			mk("mandatory-node-added-to-another-module:"+s.Body+":into="+s.Into, "RFC 6020 7.15: an augment must not add mandatory nodes to another module")
 		}
@@ -1182,6 +1190,25 @@ func checkAug(s AugStruct) (vs []engine.Violation, outcome string) {
 		return vs, "rejected"
 	}
 	da, di := gen.DumpString(ra.MS, gen.DumpOpts{}), gen.DumpString(ri.MS, gen.DumpOpts{})
+	if s.Sub == "other-module" {
+		// augmenting nodes belong to the augmenting module a (written in its submodule s): check, then
+		// substitute module b's names, which the in-place variant has
+		da, di = treeOnly(da), treeOnly(di)
+		for _, name := range introduced {
+			found := false
+			for _, l := range strings.Split(da, "\n") {
+				p := strings.SplitN(l, " ", 2)[0]
+				if (strings.HasSuffix(p, "/"+name) || strings.Contains(l, "/{choice "+name+"} ")) && (strings.Contains(l, ` module="a"`) || strings.Contains(l, ` module="s"`)) && strings.Contains(l, `ns="urn:a"`) {
+					found = true
+				}
+			}
+			if !found {
+				mk("augmenting-node-not-in-augmenting-module:"+cls+":written-in-submodule", "node "+name+" added by the augment in submodule s of module a does not have namespace urn:a")
+			}
+		}
+		rep := strings.NewReplacer(` module="a"`, ` module="b"`, ` module="s"`, ` module="b"`, ` submodule="s"`, ` submodule=""`, `ns="urn:a"`, `ns="urn:b"`, `ns=\"urn:a\"`, `ns=\"urn:b\"`, `{urn:a `, `{urn:b `)
+		da = rep.Replace(da)
+	}
 	if s.Cross {
 		da, di = treeOnly(da), treeOnly(di)
 		// augmenting nodes belong to the augmenting module: check, then substitute
@@ -1227,7 +1254,7 @@ func checkAug(s AugStruct) (vs []engine.Violation, outcome string) {
 		da, di = stripMachines(da), stripMachines(di)
 	}
 	da, di = stripTypeSpace(da), stripTypeSpace(di)
-	if s.Sub != "" {
+	if s.Sub != "" && s.Sub != "other-module" {
 		// nodes written in a submodule carry the submodule's name as their module (namespace urn:a
 		// all the same); the in-place variant has them where the target is written
 		for _, sm := range []string{`s`, `s2`} {
@@ -1274,7 +1301,7 @@ func augStructs() []AugStruct {
 		}
 	}
 	for _, b := range append(append([]string{}, bodyNames[:8]...), "mand-leaf", "mand-choice", "mand-list", "mand-container") {
-		for _, sub := range []string{"module", "itself", "sibling"} {
+		for _, sub := range []string{"module", "itself", "sibling", "other-module"} {
 			for _, into := range []string{"container", "list", "choice"} {
 				for _, d := range []string{"", "when", "status"} {
 					out = append(out, AugStruct{Body: b, Deco: d, Into: into, Sub: sub})
